@@ -124,7 +124,8 @@ Definition toggles_off : toggles := mkT false false false false false.
 Definition allowed (c : lcfg) (sw : bool) : bool := negb (c_do_import c) || sw.
 Definition cond_or (b : bool) (v m : N) : N := if b then N.lor v m else v.
 
-(* PassthroughFs::init: the switches are only ever stored `true` (never reset) *)
+(* PassthroughFs::init: every switch is stored with the outcome of THIS negotiation (fix: 3c323ec; before
+   it the switches were only ever stored `true`); [t], the switches before the call, is overwritten *)
 Definition pt_init (c : lcfg) (t : toggles) (capable : N) : N * toggles :=
   let wb := allowed c (c_writeback c) && contains capable F_WRITEBACK_CACHE in
   let no := allowed c (c_no_open c) && contains capable F_ZERO_MESSAGE_OPEN in
@@ -137,8 +138,7 @@ Definition pt_init (c : lcfg) (t : toggles) (capable : N) : N * toggles :=
   let o3 := cond_or nd o2 F_ZERO_MESSAGE_OPENDIR in
   let o4 := cond_or kp o3 F_HANDLE_KILLPRIV_V2 in
   let o5 := cond_or dx o4 F_PERFILE_DAX in
-  (o5, mkT (t_writeback t || wb) (t_no_open t || no) (t_no_opendir t || nd) (t_killpriv_v2 t || kp)
-           (t_perfile_dax t || dx)).
+  (o5, mkT wb no nd kp dx).
 
 (* OverlayFs::init: same shape; per-file DAX additionally needs the configuration switch *)
 Definition ovl_init (c : lcfg) (t : toggles) (capable : N) : N * toggles :=
@@ -153,8 +153,7 @@ Definition ovl_init (c : lcfg) (t : toggles) (capable : N) : N * toggles :=
   let o3 := cond_or nd o2 F_ZERO_MESSAGE_OPENDIR in
   let o4 := cond_or kp o3 F_HANDLE_KILLPRIV_V2 in
   let o5 := cond_or dx o4 F_PERFILE_DAX in
-  (o5, mkT (t_writeback t || wb) (t_no_open t || no) (t_no_opendir t || nd) (t_killpriv_v2 t || kp)
-           (t_perfile_dax t || dx)).
+  (o5, mkT wb no nd kp dx).
 
 (* destroy() leaves the switches alone in both layers *)
 Definition layer_destroy (t : toggles) : toggles := t.
@@ -172,10 +171,10 @@ Record behaviour := mkB {
 Definition pt_behaviour (c : lcfg) (t : toggles) : behaviour :=
   mkB (t_no_open t) (t_no_opendir t) (t_writeback t) (t_killpriv_v2 t) (t_perfile_dax t).
 
-(* OverlayFs: open()/create() rewrite the flags on `self.config.writeback`, not on the negotiated
-   switch; killpriv_v2 and perfile_dax are stored but never consulted *)
+(* OverlayFs: open()/create() rewrite the flags on the negotiated switch (fix: 018111a; before it on
+   `self.config.writeback`); killpriv_v2 and perfile_dax are stored but never consulted *)
 Definition ovl_behaviour (c : lcfg) (t : toggles) : behaviour :=
-  mkB (t_no_open t) (t_no_opendir t) (c_writeback c) false false.
+  mkB (t_no_open t) (t_no_opendir t) (t_writeback t) false false.
 
 (* ------------------------------------------------------------------ histories
    INIT with a capability word; between two INITs the client sends DESTROY. *)
